@@ -8,7 +8,6 @@ open FloatOps
 
 instance : LawfulFloatOps Rat where
   same_iff x y := by simp [FloatOps.same]
-  le_notNaN x y _ := by simp [FloatOps.isNaN]
   le_refl x _ := by simp [FloatOps.le]
   le_total x y _ _ := by
     simp only [FloatOps.le, decide_eq_true_eq]; exact Rat.le_total
@@ -20,8 +19,6 @@ instance : LawfulFloatOps Rat where
   maxFinite_notNaN := rfl
   neg_maxFinite_notNaN := rfl
   neg_max_le_max := by decide +kernel
-  isNaN_addZero x := rfl
-  addZero_idem x := rfl
   round_addZero x := rfl
   feq_addZero x y := rfl
   ofInt_mono i j x y hij hx hy := by
